@@ -402,6 +402,61 @@ impl ConsumerGroup {
     }
 }
 
+#[cfg(feature = "verif")]
+impl ConsumerGroup {
+    /// Report disagreements between the representations of the pending set
+    /// (by id, by consumer, per-consumer counters, total, bounds).
+    pub fn verif_check_invariants(&self) -> Vec<String> {
+        let mut out = Vec::new();
+        let pending = self.pending.read().unwrap();
+        let consumers = self.consumers.read().unwrap();
+        let total = *self.total_pending.lock().unwrap();
+        let count = *self.consumer_count.lock().unwrap();
+        if total != pending.entries_by_id.len() {
+            out.push(format!("total_pending {} but {} entries by id", total, pending.entries_by_id.len()));
+        }
+        if count != consumers.len() {
+            out.push(format!("consumer_count {} but {} consumers", count, consumers.len()));
+        }
+        let mut seen: std::collections::HashSet<StreamId> = std::collections::HashSet::new();
+        for (name, ids) in pending.entries_by_consumer.iter() {
+            if ids.is_empty() {
+                out.push(format!("consumer {} has an empty id list", name));
+            }
+            for id in ids {
+                if !seen.insert(*id) {
+                    out.push(format!("id {} listed twice in the by-consumer index", id));
+                }
+                match pending.entries_by_id.get(id) {
+                    Some(e) if &e.consumer == name => {}
+                    Some(e) => out.push(format!("id {} listed under {} but owned by {}", id, name, e.consumer)),
+                    None => out.push(format!("id {} listed under {} but not pending by id", id, name)),
+                }
+            }
+            if !consumers.contains_key(name) {
+                out.push(format!("pending entries for unknown consumer {}", name));
+            }
+        }
+        for (id, e) in pending.entries_by_id.iter() {
+            if !seen.contains(id) {
+                out.push(format!("id {} pending by id (owner {}) but missing from the by-consumer index", id, e.consumer));
+            }
+        }
+        for (name, c) in consumers.iter() {
+            let listed = pending.entries_by_consumer.get(name).map(|v| v.len()).unwrap_or(0);
+            if c.pending_count != listed {
+                out.push(format!("consumer {} pending_count {} but {} ids listed", name, c.pending_count, listed));
+            }
+        }
+        let min = pending.entries_by_id.keys().next().copied();
+        let max = pending.entries_by_id.keys().next_back().copied();
+        if pending.min_pending_id != min || pending.max_pending_id != max {
+            out.push(format!("pending bounds {:?}..{:?} but actual {:?}..{:?}", pending.min_pending_id, pending.max_pending_id, min, max));
+        }
+        out
+    }
+}
+
 impl PendingEntryList {
     /// Create a new pending entry list
     pub fn new() -> Self {
